@@ -1486,6 +1486,14 @@ class Model(Object):
             existing = new_reactions.query(lambda rxn: rxn.id in self.reactions)
             for reaction in existing:
                 reaction.id = f"{prefix_existing}{reaction.id}"
+        # reactions that will be ignored must not stay attached to metabolites
+        # and genes that other reactions bring into the model
+        for reaction in new_reactions:
+            if reaction.id in new_model.reactions:
+                for met in reaction._metabolites:
+                    met._reaction.discard(reaction)
+                for gene in reaction._genes:
+                    gene._reaction.discard(reaction)
         new_model.add_reactions(new_reactions)
         interface = new_model.problem
         new_vars = [
